@@ -64,6 +64,13 @@ Theorem C12_residual_is_null_objects :
   /\ module_object_writes = [].
 Proof. exact gen_residual. Qed.
 
+(** ... and no function of PEPit hands a null object out: in the sources (regenerated list of every read of them inside a
+    function) they only start an accumulation (`acc = null_point; acc += p`) or are an operand of + / -, which build new
+    objects; none is returned, recorded in a sample, stored or passed on, so their never-reset value cache cannot become
+    the value of a user-visible gradient or block. *)
+Theorem C12_null_objects_do_not_escape : forallb use_ok module_object_uses = true.
+Proof. exact gen_null_objects_do_not_escape. Qed.
+
 (** ... but it leaks nowhere else: for ALL programs starting with [PEP()] (null_point.eval() allowed), every
     output other than the length returned by null_point.eval() itself, and every counter / registry, is the
     same from any two states: the cache cannot reach the solver input. *)
@@ -122,3 +129,4 @@ Print Assumptions C12_residual_is_null_objects.
 Print Assumptions C12_null_cache_stays_out_of_globals.
 Print Assumptions C12_null_point_leak_refuted.
 Print Assumptions C12_verbosity.
+Print Assumptions C12_null_objects_do_not_escape.
